@@ -155,4 +155,54 @@ class C17(Prop):
             return "partials/?"
 
 
-PROPS = {p.id: p for p in [C17(), C18()]}
+# ------------------------------------------------------------------------------------------------ render-based
+class RenderProp(Prop):
+    """Properties observed at Engine.LoadTemplates + Engine.Render: implementation bytes vs model bytes (correspondence)
+    and vs the specification answer computed by the driver (property oracle), where the case carries one."""
+    declined = 0
+
+    def classes_equal(self, i, m):
+        return i == m
+
+    def compare(self, case, impl, model, spec):
+        i, m = out_of(impl), out_of(model)
+        if m[0] in ("model-domain", "no-model"):
+            # the model declines (behaviour outside what is modelled): not agreement, not a mismatch; counted
+            corr = True
+            declined = True
+        else:
+            declined = False
+            if i[0] == "ok" or m[0] == "ok":
+                corr = i == m
+            else:
+                corr = i[0] == m[0]  # same error class; messages are not compared
+        prop = None
+        s = out_of(spec)
+        if s[0] == "ok":
+            prop = (i == s)
+        detail = "%s: impl=%r model=%r spec=%r%s" % (case.get("js") or case.get("what") or case["id"], i, m, s if s[0] else None,
+                                                    " (model: %s)" % (model or {}).get("msg") if m[0] != "ok" else "")
+        case["_declined"] = declined
+        return corr, prop, detail
+
+    def bucket(self, case, impl):
+        b = case.get("bucket") or case.get("ty") or case.get("kind")
+        if case.get("_declined"):
+            return "model-declined"
+        return "%s/%s" % (b, out_of(impl)[0])
+
+
+class C01(RenderProp):
+    id = "C01"
+    n_quick = 3000
+    n_thorough = 40000
+    required_theorems = []
+    rule = ("type-directed random expression trees of the supported subset (depth <= 5 quick / 8 thorough) over 8-12 typed data "
+            "variables; printed by `= e` through LoadTemplates + Render. Non-trivial: depth >= 2 and the model did not decline; "
+            "distinct by (expression source, data).")
+
+    def nontrivial(self, case, impl):
+        return case.get("depth", 0) >= 2 and not case.get("_declined")
+
+
+PROPS = {p.id: p for p in [C01(), C17(), C18()]}
